@@ -42,7 +42,7 @@ BUILTIN_FUNCS = {
     "len", "isinstance", "issubclass", "int", "str", "bool", "float", "set", "frozenset", "list", "tuple", "dict", "min", "max",
     "sum", "range", "map", "filter", "all", "any", "sorted", "enumerate", "zip", "callable", "type", "hasattr",
     "getattr", "iter", "next", "abs", "round", "repr", "ord", "chr", "print", "object", "divmod", "bytes",
-    "bytearray", "id", "hash", "reversed",
+    "bytearray", "id", "hash", "reversed", "memoryview",
 }
 
 TYPE_NAMES = {"int", "str", "bool", "float", "set", "frozenset", "list", "tuple", "dict", "bytes", "bytearray", "object", "type"}
@@ -118,13 +118,15 @@ class Lib:
             if ctx.decide(o.is_none):
                 raise self.raise_ext("AttributeError")
             return self.e.getattr(ctx, o.val, name)
-        if isinstance(o, V.BytesOf):
+        if isinstance(o, (V.BytesOf, V.BytesV)):
             return V.Builtin("method." + name, bound=o)
         if isinstance(o, V.EnumV):
             if name == "value":
                 return o.term
             if name == "name":
                 return o.name if o.name is not None else V.Opaque("enum name")
+        if isinstance(o, V.Opaque) and o.what.startswith("container built in a loop") and name in ("append", "extend"):
+            return V.Builtin("method." + name, bound=o)
         if isinstance(o, V.Opaque):
             if ctx.opaque_ok:
                 return V.Opaque(o.what + "." + name)
@@ -194,6 +196,8 @@ class Lib:
         if name in ("Path", "PurePath"):
             return isinstance(v, V.Opaque) and v.what.startswith("path")
         if name in ("bytes", "bytearray", "memoryview"):
+            if isinstance(v, V.BytesV):
+                return name == ("bytearray" if v.mutable else "bytes")
             return False
         raise EngineLimit("isinstance against external class %s" % name)
 
@@ -202,6 +206,16 @@ class Lib:
         e = self.e
         if isinstance(op, ast.Mod) and (isinstance(a, str) or (isinstance(a, z3.ExprRef) and z3.is_string(a))):
             return V.Opaque("formatted string")
+        # Optional operands: None does not support arithmetic (TypeError); otherwise the value is used
+        if isinstance(a, OptV) or isinstance(b, OptV):
+            def narrow(x):
+                if not isinstance(x, OptV):
+                    return x
+                if ctx.decide(x.is_none if not isinstance(x.is_none, bool) else x.is_none):
+                    raise self.raise_ext("TypeError", "arithmetic on None")
+                return x.val
+
+            return self.binop(ctx, op, narrow(a), narrow(b))
         # operator dispatch to repository classes
         if isinstance(a, Obj) or isinstance(b, Obj):
             return self.obj_binop(ctx, op, a, b)
@@ -217,6 +231,10 @@ class Lib:
             return V.Opaque("formatted string")
         if isinstance(a, z3.ExprRef) and z3.is_string(a) and isinstance(op, ast.Mod):
             return V.Opaque("formatted string")
+        if isinstance(a, V.BytesV) or isinstance(b, V.BytesV):
+            from . import bytesmodel
+
+            return bytesmodel.bytes_binop(self, ctx, op, a, b)
         if isinstance(a, (PyList,)) and isinstance(b, (PyList,)) and isinstance(op, ast.Add):
             return PyList(a.items + b.items)
         if isinstance(a, tuple) and isinstance(b, tuple) and isinstance(op, ast.Add):
@@ -258,17 +276,23 @@ class Lib:
         if isinstance(op, ast.Add):
             return ta + tb
         if isinstance(op, ast.Sub):
-            return ta - tb
+            r = ta - tb
+            if isinstance(b, int) and not isinstance(b, bool) and b == 1 and getattr(ctx, "bitinfo", None):
+                from . import bytesmodel
+
+                bytesmodel.note_mask(ctx, ta, r)
+            return r
         if isinstance(op, ast.Mult):
             return ta * tb
         if isinstance(op, (ast.FloorDiv, ast.Mod)):
             return self.floordivmod(ctx, op, ta, tb)
         if isinstance(op, ast.Pow):
             return self.power(ctx, a, b)
-        if isinstance(op, ast.LShift):
-            return ta * self.pow2_of(ctx, b)
-        if isinstance(op, ast.RShift):
-            return self.floordivmod(ctx, ast.FloorDiv(), ta, e.to_num(self.pow2_of(ctx, b)))
+        if isinstance(op, (ast.LShift, ast.RShift, ast.BitOr)) or (isinstance(op, ast.BitAnd) and not any(
+                isinstance(y, int) and not isinstance(y, bool) and y >= 0 and (y & (y + 1)) == 0 for y in (a, b))):
+            from . import bytesmodel
+
+            return bytesmodel.int_bitop(self, ctx, op, a, b, ta, tb)
         if isinstance(op, ast.BitAnd):
             for x, y in ((a, b), (b, a)):
                 if isinstance(y, int) and y >= 0 and (y & (y + 1)) == 0:
@@ -478,6 +502,8 @@ class Lib:
 
     def contains(self, ctx, container, item):
         from .symexec import speclib_or
+        if isinstance(container, PyDict) and getattr(container, "opaque", False):
+            raise EngineLimit("read of a dict whose contents are not tracked (symbolic keys)")
 
         if isinstance(container, SymSet):
             return z3.Select(container.term, container_elem(container, item))
@@ -508,6 +534,12 @@ class Lib:
 
     # ------------------------------------------------------------------ subscripts
     def getitem(self, ctx, o, k):
+        if isinstance(o, PyDict) and getattr(o, "opaque", False):
+            raise EngineLimit("read of a dict whose contents are not tracked (symbolic keys)")
+        if isinstance(o, V.BytesV):
+            from . import bytesmodel
+
+            return bytesmodel.bytes_getitem(self, ctx, o, k)
         if isinstance(o, V.GroupDict):
             return V.GroupSlot(o, k)
         if isinstance(o, PyList) or isinstance(o, tuple):
@@ -568,11 +600,15 @@ class Lib:
             if ctx.decide(z3.Or(idx < 0, idx >= n)):
                 raise self.raise_ext("IndexError")
             return z3.SubString(o, idx, 1)
-        if isinstance(o, V.Builtin) and o.name.startswith("typing."):
-            return o
+        if isinstance(o, V.Builtin) and (o.name.startswith("typing.") or (o.bound is None and o.name in TYPE_NAMES)):
+            return o  # a type expression such as list[int]
         raise EngineLimit("subscript of %r" % (o,))
 
     def getslice(self, ctx, o, lo, hi):
+        if isinstance(o, V.BytesV):
+            from . import bytesmodel
+
+            return bytesmodel.bytes_getslice(self, ctx, o, lo, hi)
         if isinstance(o, (PyList, tuple)):
             items = o.items if isinstance(o, PyList) else list(o)
             if (lo is None or isinstance(lo, int)) and (hi is None or isinstance(hi, int)):
@@ -598,8 +634,17 @@ class Lib:
         raise EngineLimit("slice of %r" % (o,))
 
     def setitem(self, ctx, o, k, v):
+        if isinstance(o, V.BytesV):
+            from . import bytesmodel
+
+            return bytesmodel.bytes_setitem(self, ctx, o, k, v)
         if isinstance(o, PyDict):
-            o.items[self.e.hashable(k)] = v
+            try:
+                o.items[self.e.hashable(k)] = v
+            except EngineLimit:
+                o.opaque = True  # symbolic key: the contents of this dict are no longer tracked
+            return
+        if isinstance(o, V.Opaque) and o.what.startswith("container built in a loop"):
             return
         if isinstance(o, SymMap):
             kt = o.kkind.unwrap(k)
@@ -627,6 +672,12 @@ class Lib:
             return self.call_exc_method(ctx, b.bound, name[len("exc."):], args, kwargs)
         self._lib_pre(ctx, name, args, kwargs)
         fn = getattr(self, "bi_" + name.replace(".", "_"), None)
+        if fn is None:
+            from . import bytesmodel
+
+            fn2 = getattr(bytesmodel, "bi_" + name.replace(".", "_"), None)
+            if fn2 is not None:
+                return fn2(self, ctx, *args, **kwargs)
         if fn is None:
             if name.startswith("typing."):
                 return V.Opaque(name)
@@ -665,6 +716,10 @@ class Lib:
         return n
 
     def bi_len(self, ctx, x):
+        if isinstance(x, PyDict) and getattr(x, "opaque", False):
+            raise EngineLimit("read of a dict whose contents are not tracked (symbolic keys)")
+        if isinstance(x, V.BytesV):
+            return x.length
         if isinstance(x, V.BytesOf):
             return self.utf8_len(ctx, x.s)
         if isinstance(x, PyList):
@@ -1289,13 +1344,22 @@ class Lib:
 
     # ------------------------------------------------------------------ methods of builtin values
     def call_method(self, ctx, o, name, args, kwargs):
+        if isinstance(o, PyDict) and getattr(o, "opaque", False):
+            raise EngineLimit("read of a dict whose contents are not tracked (symbolic keys)")
         fn = getattr(self, "m_%s_%s" % (self.kind_of(o), name), None)
         if fn is None:
+            from . import bytesmodel
+
+            fn2 = getattr(bytesmodel, "m_%s_%s" % (self.kind_of(o), name), None)
+            if fn2 is not None:
+                return fn2(self, ctx, o, *args, **kwargs)
             raise EngineLimit("method %s of %r" % (name, o))
         return fn(ctx, o, *args, **kwargs)
 
     @staticmethod
     def kind_of(o):
+        if isinstance(o, V.BytesV):
+            return "bytes"
         from . import strmodel as _sm
 
         if isinstance(o, _sm.RegexV):
@@ -1346,6 +1410,11 @@ class Lib:
 
     def m_groupdict_values(self, ctx, o):
         return V.GroupValues(o)
+
+    def m_other_append(self, ctx, o, x):
+        if isinstance(o, V.Opaque) and o.what.startswith("container built in a loop"):
+            return None
+        raise EngineLimit("append on %r" % (o,))
 
     def m_list_append(self, ctx, o, x):
         self._mutating(ctx, o)
